@@ -62,6 +62,20 @@ def run(tier, seed, replay=None):
         cases.append({"id": cid, "settings": settings, "history": [{"op": "root", "schema": doc}],
                       "opts": {"has_impl": False}})
         meta[cid] = {"settings": settings, "doc": doc}
+    # constrained newtypes at the ends of their constraint ranges (a bound that excludes nothing, one that admits only "",
+    # one-member and empty value lists), as definitions and as inline members
+    edge = {"Min0": {"type": "string", "minLength": 0}, "Max0": {"type": "string", "maxLength": 0},
+            "Min0Max3": {"type": "string", "minLength": 0, "maxLength": 3}, "EmptyPattern": {"type": "string", "pattern": ""},
+            "Min1": {"type": "string", "minLength": 1}, "OneValue": {"type": "string", "enum": ["only"]},
+            "NotOne": {"not": {"enum": ["x"]}}, "IntOne": {"type": "integer", "enum": [7]},
+            "Fmt": {"type": "string", "format": "uuid", "minLength": 0}, "NullableMin0": {"type": ["string", "null"], "minLength": 0}}
+    for j, sub in enumerate([list(edge), ["Min0"], ["Max0", "Min0Max3"], ["EmptyPattern", "Min1", "OneValue"], ["NotOne", "IntOne", "Fmt"]]):
+        defs = {k_: edge[k_] for k_ in sub}
+        defs["Holder"] = {"type": "object", "properties": {k_.lower(): dict(edge[k_]) for k_ in sub}}
+        cid = "edge%02d" % j
+        cases.append({"id": cid, "settings": {"struct_builder": j % 2 == 1}, "history": [{"op": "root", "schema": {"definitions": defs}}],
+                      "opts": {"has_impl": False}})
+        meta[cid] = {"settings": cases[-1]["settings"], "doc": {"definitions": defs}}
     if replay:
         data = json.load(open(replay))
         c = (data.get("first") or data)["case"]
